@@ -14,7 +14,7 @@ LETTER_SETS = ['ab', 'abc', 'abcd1', 'aбя', 'xy1!', 'бя', 'a b', 'ab\u3000',
 def gen_training(rng):
     letters = rng.choice(LETTER_SETS)
     ngram = rng.choice([2, 2, 3, 3, 4, 5])
-    mode = rng.choice(['mixed', 'mixed', 'len=ngram', 'single-length', 'at-max-length'])
+    mode = rng.choice(['mixed', 'mixed', 'len=ngram', 'single-length', 'at-max-length', 'wordlike', 'wordlike'])
     max_length = rng.choice([21, 21, ngram + 1, ngram + 3]) if mode != 'at-max-length' else rng.choice([ngram + 1, ngram + 2, ngram + 4])
     pws = []
     n = rng.randint(3, 25)
@@ -28,6 +28,11 @@ def gen_training(rng):
         else:
             ln = rng.randint(1, ngram + 3)
         pws.append(''.join(rng.choice(letters) for _ in range(ln)))
+    if mode == 'wordlike':
+        # skewed, word-like lists (shared stems, repeated syllables): sparse transition tables with dead ends
+        syl = rng.sample(['ba', 'na', 'an', 'nd', 'ab', 'bb', 'a', 'n', 'b', 'da'], 5)
+        pws = [''.join(rng.choice(syl) for _ in range(rng.randint(2, 4))) for _ in range(rng.randint(8, 20))]
+        pws += [pws[0]] * rng.randint(0, 4)
     pws += pws[:rng.randint(0, len(pws))]
     if rng.random() < 0.3:
         pws.append('z' * (ngram + 1))          # a letter that may fall outside a small alphabet
